@@ -198,6 +198,50 @@ def check(rep, F, tier, replay=None):
         if bad:
             rep.violation("SET-total", "FixedTransaction::%s" % nm_, "FixedTransaction::%s can return Ok without storing %s: given another encoding of an equal value (tag 258 added or dropped, an indefinite length, a wider integer head) it keeps the old bytes and the old hash, and signatures added afterwards sign the old hash" % (nm_, fld_), {})
     rep.floor("raw-bytes setters of FixedTransaction", 3, n_set)
+    # EXACT-raw: caller-supplied raw parts are exactly one item
+    rep.rule("EXACT-raw", "every public FixedTransaction function that stores caller-supplied bytes verbatim (body_bytes / auxiliary_bytes taken from a slice argument) decodes them through a function whose success return is dominated by `consumed position == length`: a raw part followed by extra bytes would be written back inside the transaction array (`84 <body> 00 a0 f5 f6` - five items in an array of four)")
+    def _exact_guarded(fid_):
+        fn_ = F.fns[fid_]
+        org_ = ff.Origins(F, fid_)
+        for bi, kind, loc in _mp.success_stores(F, fid_):
+            for s_, edge, d in _mp.dominating_guards(F, fid_, bi, org_):
+                if d["kind"] == "bin" and d["op"] in ("Ne", "Eq"):
+                    both = d["lhs"] + d["rhs"]
+                    if any(x.startswith("call:") and "Cursor::<T>::position" in x for x in both) and any(x.startswith("call:") and x.split("@")[0].endswith("::len") for x in both):
+                        if (d["op"] == "Ne" and edge == "0") or (d["op"] == "Eq" and edge != "0"):
+                            return True
+        return False
+    guarded_ = {fid_ for fid_, fn_ in F.fns.items() if "/tests/" not in fn_["file"] and not F.is_derived(fid_) and fn_["file"].endswith("fixed_tx.rs") and _exact_guarded(fid_)}
+    n_ex = 0
+    for fid_, fn_ in F.fns.items():
+        if F.is_derived(fid_) or "/tests/" in fn_["file"] or fn_.get("vis") != "pub" or not F.key(fid_).startswith("FixedTransaction::"):
+            continue
+        ffs_ = ff.FnFields(F, fid_)
+        org_ = ff.Origins(F, fid_)
+        ops_ = []
+        for fld_ in ("body_bytes", "auxiliary_bytes"):
+            for s_ in ffs_.stores_to(FT, fld_):
+                ops_.append((fld_, s_[4]))
+            for a_ in ffs_.aggregates_of(FT):
+                ops_.append((fld_, agg_operand(F, a_, FT, fld_)))
+        for fld_, op_ in ops_:
+            o_ = _origins_any(org_, op_)
+            args_ = {x for x in o_ if x.startswith("arg:")}
+            if not args_:
+                continue
+            n_ex += 1
+            rep.inst("EXACT-raw")
+            ok_ = False
+            for c in F.calls(fid_):
+                if (c.to or "") in guarded_:
+                    ao_ = set()
+                    for a_ in fn_["bbs"][c.bb]["t"][3]:
+                        ao_ |= org_.of_operand(a_)
+                    if args_ & ao_:
+                        ok_ = True
+            if not ok_:
+                rep.violation("EXACT-raw", "%s|%s" % (F.key(fid_), fld_), "%s stores the caller's bytes as %s without checking that they are exactly one item: %s(body ++ 00) is accepted and to_bytes() writes `84 a3.. 00 a0 f5 f6`, an array of four holding five items, which the library itself cannot read back" % (F.key(fid_), fld_, F.key(fid_)), {})
+    rep.floor("verbatim stores of caller-supplied raw parts", 6, n_ex)
     # (2) readers of the hash
     rep.rule("FT-hash-read", "transaction_hash() returns the tx_hash field; sign_and_add_* pass that field to the witness constructor")
     fid = fn1(rep, F, "FixedTransaction::transaction_hash")
